@@ -929,6 +929,18 @@ def _record_evaluate(desc):
             setattr(ev, n, f)
 
 
+class _Replayable(dict):
+    """case descriptor that carries the draw history answered so far when it is written out (an
+    exception inside a guard is recorded with the draws that led to it, so --replay reproduces it)"""
+
+    def __init__(self, case, env):
+        dict.__init__(self, case)
+        self._env = env
+
+    def items(self):
+        return list(dict(self, choices=list(self._env.choices)).items())
+
+
 def _resample_reference(method, rec, test_labels=None):
     """reference (lower, upper-or-None, why-not) of one observed resample: leave-one-group-out over the
     resample's own groups, or - with test_labels (one list per fold) - the cross-validated lower bound from
@@ -968,7 +980,7 @@ def _ev_exec(case, env, ctx):
     full = _data(case, ctx.seed)
     N = 2
     sigp = '%s|method=%s,%s' % (routine, method, ','.join('%s=%s' % kv for kv in sorted(setting.items())))
-    with ctx.guard(sigp, case):
+    with ctx.guard(sigp, _Replayable(case, env)):
         rdms = _rdms(full, labels, n_cond)
         model = _fixed_model(rdms, n_cond, ctx.seed)
         kw = dict(method=method, N=N, rdm_descriptor=desc)
@@ -983,9 +995,19 @@ def _ev_exec(case, env, ctx):
                       use_correction=False, pattern_descriptor='index')
         else:
             kw.update(k_pattern=1, k_rdm=setting['k_rdm'], n_cv=1, use_correction=False, pattern_descriptor='index')
-        with installed(RngEnv(env)), _record_evaluate(desc) as log, \
-                _Unchanged(ctx, '%s|method=%s' % (routine, method), case, data=rdms, models=model):
-            res = getattr(inf, routine)(model, rdms, **kw)
+        try:
+            with installed(RngEnv(env)), _record_evaluate(desc) as log, \
+                    _Unchanged(ctx, '%s|method=%s' % (routine, method), case, data=rdms, models=model):
+                res = getattr(inf, routine)(model, rdms, **kw)
+        except (ValueError, FloatingPointError, ZeroDivisionError):
+            # the routine cannot go on when the measure is undefined for an RDM of a resample it drew
+            # (e.g. constant over the entries that are left): such a draw history is excluded, not judged
+            for rec in log['samples'] + log['splits']:
+                if _resample_reference(method, rec)[2] not in (None, 'lower bound: single group: nothing is '
+                                                                      'left to predict from'):
+                    ctx.exclude('resample: measure undefined for a resampled RDM (routine raised)')
+                    return
+            raise
         nc = np.asarray(res.noise_ceiling, dtype=float)
         done = dict(case, choices=list(env.choices))
         ctx.case(done)
@@ -1349,7 +1371,7 @@ def _cv_exec(case, env, ctx):
     n_rdm = full.shape[0]
     sigp = 'cv_noise_ceiling|gen=%s,method=%s,nan=%d' % (gen, method, 1 if len(mask) else 0)
     pdesc = 'index'
-    with ctx.guard(sigp, case):
+    with ctx.guard(sigp, _Replayable(case, env)):
         rdms = _rdms(_masked(full, mask), labels, n_cond, params.get('cgrp'))
         with installed(RngEnv(env)):
             if gen == 'loo_rdm':
